@@ -46,13 +46,14 @@ def build_script(ob, model):
     reads, wexc = [], []
     nw = 0
     for tok in ob.info.get('trail', []):
+        cls = tok.split(':', 1)[1] if ':' in tok and tok.startswith(('wexc', 'rexc')) else None
         if tok.startswith('wexc'):
-            wexc.append(nw)
+            wexc.append(nw if cls is None else [nw, cls])
             nw += 1
         elif tok.startswith('w') and tok[1:].isdigit():
             nw += 1
         elif tok.startswith('rexc'):
-            reads.append('EXC')
+            reads.append('EXC' if cls is None else f'EXC:{cls}')
         elif tok.startswith('rblank'):
             reads.append('')
         elif tok.startswith('rtext'):
@@ -85,7 +86,7 @@ def replay_request(method):
 def check_request(sess, method, kf_active):
     """command / query bodies"""
     ctx = sess.new_ctx()
-    sm.install_common(ctx, sm.PortModel(faults=True, reads='any', exc_classes=('SerialException',)))
+    sm.install_common(ctx, sm.PortModel(faults=True, reads='any', exc_classes=('SerialException', 'OSError')))
     ctx.contracts[f'{sm.EBB3}.record_error'] = sm.RecordError()
     ctx.opts['unroll_limit'] = 64
     ex = Exec(ctx)
@@ -160,7 +161,7 @@ def check_request(sess, method, kf_active):
 
 def check_statusbyte(sess):
     ctx = sess.new_ctx()
-    sm.install_common(ctx, sm.PortModel(faults=True, reads='any', exc_classes=('SerialException',)))
+    sm.install_common(ctx, sm.PortModel(faults=True, reads='any', exc_classes=('SerialException', 'OSError')))
     ctx.contracts[f'{sm.EBB3}.record_error'] = sm.RecordError()
     ex = Exec(ctx)
     p = Path()
